@@ -47,6 +47,12 @@ type MTarget struct {
 	PSl   *[]int            `plenc:"24"`
 	PIs   []*int            `plenc:"25"`
 	Bo2   []bool            `plenc:"26"`
+	NSi   null.String       `plenc:"27,intern"`
+	Si    string            `plenc:"28,intern"`
+	NT    null.Time         `plenc:"29"`
+	NB    null.Bool         `plenc:"30"`
+	NF    null.Float        `plenc:"31"`
+	Ts    []time.Time       `plenc:"32"`
 }
 
 func init() {
